@@ -561,6 +561,30 @@ def krome_reset(ctx, pkg, rule="R4"):
         reads = [n for n in ast.walk(fn) if isinstance(n, ast.Call) and ast.unparse(n.func) == "self._add_reaction"]
         ok = len(init_calls) == 1 and reads and init_calls[0].lineno < min(r.lineno for r in reads)
         ctx.check(ok, rule, f"Network.{mname}:initialize before reading", (NF, fn.lineno), "the format class is initialised before any line is parsed")
+        # ... for EVERY file / string: the only condition it may depend on is that the format class exists
+        if len(init_calls) == 1:
+            recv = init_calls[0].func.value.id
+            par = _parents(fn)
+            conds = []
+            x = init_calls[0]
+            while x in par:
+                p_ = par[x]
+                if isinstance(p_, ast.If) and x is not p_.test:
+                    conds.append(ast.unparse(p_.test))
+                if isinstance(p_, (ast.For, ast.While)):
+                    conds.append("<loop>")
+                x = p_
+            def bare(c):
+                c = c.strip()
+                while c.startswith("not "):
+                    c = c[4:].strip()
+                return c[1:-1].strip() if c.startswith("(") and c.endswith(")") else c
+            # a Reaction INSTANCE was parsed elsewhere: nothing is read here, nothing to reset
+            extra = [c for c in conds if bare(c) not in (recv, f"{recv} is None", f"{recv} is not None") and not re.fullmatch(r"isinstance\(\w+, Reaction\)", bare(c))]
+            ctx.check(not extra, rule, f"Network.{mname}:initialize for every file", (NF, init_calls[0].lineno),
+                      "the reset depends on nothing but the existence of the format class" if not extra else
+                      f"the per-file reset of the format class is skipped when `{extra[0]}` does not hold: directive state (@format, @common, @var) of the previous file decodes the next one",
+                      expected=f"{recv}.initialize() on every path that reads", found=" and ".join(extra))
 
 
 def _r4(ctx, pkg):
@@ -568,6 +592,9 @@ def _r4(ctx, pkg):
 
 
 MUTANTS = [
+    {"name": "initialize-skipped-for-continued-file", "edits": [
+        {"file": NF, "old": "    def add_reaction_from_file(self, filename: str | Path, format: str) -> None:", "new": "    def add_reaction_from_file(self, filename: str | Path, format: str, continued: bool = False) -> None:"},
+        {"file": NF, "old": "        if rclass:\n            rclass.initialize()\n        else:\n            raise RuntimeError(f\"Unknown format: {format}\")", "new": "        if not rclass:\n            raise RuntimeError(f\"Unknown format: {format}\")\n        elif not continued:\n            rclass.initialize()"}], "rules": ["R4"]},
     {"name": "component-species-cache", "edits": [
         {"file": "naunet/component.py", "old": "class Component:\n", "new": "class Component:\n    _species_cache = {}\n"},
         {"file": "naunet/component.py", "old": "            return Species(species_name, **kwargs)\n", "new": "            key = (species_name, *sorted(kwargs.items()))\n            if key not in self._species_cache:\n                self._species_cache[key] = Species(species_name, **kwargs)\n            return self._species_cache[key]\n"}], "rules": ["R3"]},
